@@ -21,7 +21,7 @@ PROP = dict(
                        "Comdex.C06.keeper_deposit_moves_amm_result", "Comdex.C06.keeper_deposit_takes_at_most_offered",
                        "Comdex.C06.keeper_deposit_rate_not_better", "Comdex.C06.keeper_withdraw_moves_amm_result",
                        "Comdex.C06.keeper_withdraw_at_most_prorata_minus_fee", "Comdex.C06.keeper_last_share_gets_all",
-                       "Comdex.C06.keeper_exec_total", "Comdex.C06.keeper_reserves_per_share_nondecreasing",
+                       "Comdex.C06.keeper_exec_total", "Comdex.C06.keeper_exec_total_basic", "Comdex.C06.keeper_reserves_per_share_nondecreasing",
                        "Comdex.C06.keeper_batch_reserves_per_share", "Comdex.C06.keeper_deposit_and_farm",
                        "Comdex.C06.keeper_unfarm_and_withdraw",
                        "Comdex.C06.ranged_price_within_endpoints_fixed_translation",
